@@ -208,3 +208,127 @@ def n_find(inp):
     if bool(out[1]) != exp:
         return True, '_find_in_dict(%r, %r, %r) returned %r, expected %r' % (tv, segs, match, out[1], exp)
     return False, 'agrees'
+
+
+# ------------------------------------------------------------------ C01: reducers (tree shape after a reduction)
+def _tree(c):
+    """structural view of a check tree"""
+    from oslo_policy import _checks
+    if isinstance(c, _checks.AndCheck):
+        return ('and', [_tree(x) for x in c.rules])
+    if isinstance(c, _checks.OrCheck):
+        return ('or', [_tree(x) for x in c.rules])
+    if isinstance(c, _checks.NotCheck):
+        return ('not', _tree(c.rule))
+    return ('leaf', id(c))
+
+
+def reducer_expected(name, args):
+    """expected (kind, tree) of the single result token, computed from the argument trees before the call"""
+    t = [_tree(a) if hasattr(a, '__call__') or not isinstance(a, str) else a for a in args]
+    if name == '_wrap_check':
+        return 'check', t[1]
+    if name == '_make_and_expr':
+        return 'and_expr', ('and', [t[0], t[2]])
+    if name == '_make_or_expr':
+        return 'or_expr', ('or', [t[0], t[2]])
+    if name == '_make_not_expr':
+        return 'check', ('not', t[1])
+    if name == '_extend_and_expr':
+        return 'and_expr', ('and', t[0][1] + [t[2]])
+    if name == '_extend_or_expr':
+        return 'or_expr', ('or', t[0][1] + [t[2]])
+    if name == '_mix_or_and_expr':
+        last = t[0][1][-1]
+        joined = ('and', last[1] + [t[2]]) if last[0] == 'and' else ('and', [last, t[2]])
+        return 'or_expr', ('or', t[0][1][:-1] + [joined])
+    raise KeyError(name)
+
+
+def reducer_case(name, args):
+    from oslo_policy import _parser
+    exp = reducer_expected(name, args)
+    out = outcome(getattr(_parser.ParseState(), name), *args)
+    if out[0] == 'exc':
+        return True, '%s raised %s' % (name, out[1])
+    res = out[1]
+    if not (isinstance(res, list) and len(res) == 1 and isinstance(res[0], tuple) and len(res[0]) == 2):
+        return True, '%s returned %r' % (name, res)
+    got = (res[0][0], _tree(res[0][1]))
+    if got != exp:
+        return True, '%s built %s %r, the reduction prescribes %s %r' % (name, got[0], _show(got[1]), exp[0], _show(exp[1]))
+    return False, 'agrees'
+
+
+def _show(t):
+    if t[0] == 'leaf':
+        return 'x'
+    if t[0] == 'not':
+        return 'not ' + _show(t[1])
+    return '(' + (' %s ' % t[0]).join(_show(x) for x in t[1]) + ')'
+
+
+def reducer_cases(name):
+    from oslo_policy import _checks
+    leaf = lambda: _checks.TrueCheck()
+
+    def trees():
+        yield leaf
+        yield lambda: _checks.AndCheck([leaf(), leaf()])
+        yield lambda: _checks.OrCheck([leaf(), leaf()])
+        yield lambda: _checks.NotCheck(leaf())
+        yield lambda: _checks.OrCheck([leaf(), _checks.AndCheck([leaf(), leaf()])])
+        yield lambda: _checks.AndCheck([leaf(), _checks.OrCheck([leaf(), leaf()])])
+    ors = [lambda: _checks.OrCheck([leaf(), leaf()]), lambda: _checks.OrCheck([leaf(), leaf(), leaf()]),
+           lambda: _checks.OrCheck([leaf(), _checks.AndCheck([leaf(), leaf()])]),
+           lambda: _checks.OrCheck([leaf(), _checks.OrCheck([leaf(), leaf()])])]
+    ands = [lambda: _checks.AndCheck([leaf(), leaf()]), lambda: _checks.AndCheck([leaf(), leaf(), leaf()])]
+    for c in trees():
+        if name == '_wrap_check':
+            yield ['(', c(), ')']
+        elif name == '_make_not_expr':
+            yield ['not', c()]
+        elif name in ('_make_and_expr', '_make_or_expr'):
+            for d in trees():
+                yield [c(), 'op', d()]
+        elif name == '_extend_and_expr':
+            for a in ands:
+                yield [a(), 'and', c()]
+        elif name in ('_extend_or_expr', '_mix_or_and_expr'):
+            for o in ors:
+                yield [o(), 'or', c()]
+
+
+def _reducer_native(name):
+    def f(inp):
+        from oslo_policy import _checks
+        memo = {}
+        args = []
+        for k, v in inp.items():
+            if k == 'self':
+                continue
+            b = build(v, memo)
+            args.append(b)
+        if not all(isinstance(a, (str, _checks.BaseCheck)) or a is None for a in args):
+            return False, 'outside precondition'
+        try:
+            return reducer_case(name, args)
+        except Exception as e:      # the model's objects do not satisfy the reducer's shape precondition
+            return False, 'outside precondition (%s)' % type(e).__name__
+    return f
+
+
+def _reducer_search(name):
+    def s():
+        for args in reducer_cases(name):
+            breach, detail = reducer_case(name, args)
+            if breach:
+                return ({'reducer': name}, detail)
+        return None
+    return s
+
+
+for _n in ('_wrap_check', '_make_and_expr', '_make_or_expr', '_make_not_expr', '_extend_and_expr', '_extend_or_expr',
+           '_mix_or_and_expr'):
+    NATIVE['_parser:ParseState.' + _n] = _reducer_native(_n)
+    SEARCH['_parser:ParseState.' + _n] = _reducer_search(_n)
